@@ -49,7 +49,7 @@ Print Assumptions C02_buffer_noninterference_regrouped.
 
 (* The printer, end to end, on leaf operands *)
 Theorem C02_sprintf_leaf_noninterference : forall fuel env f a1 a2 o1 o2,
-  osane (orc env) -> no_star f = true -> Forall2 lrel a1 a2 ->
+  osane (orc env) -> hook_ok env -> no_star f = true -> Forall2 lrel a1 a2 ->
   sprintf fuel env f a1 = ROk o1 -> sprintf fuel env f a2 = ROk o2 ->
   forall ops1 ops2, o_log o1 = ops1 ++ [OTake] -> o_log o2 = ops2 ++ [OTake] ->
   rawok ops1 = true -> ptail_ok_from init ops1 = true -> ptail_ok_from init ops2 = true ->
@@ -58,7 +58,7 @@ Proof. exact sprintf_leaf_noninterference. Qed.
 Print Assumptions C02_sprintf_leaf_noninterference.
 
 Theorem C02_sprint_leaf_noninterference : forall fuel env a1 a2 o1 o2,
-  osane (orc env) -> Forall2 lrel a1 a2 ->
+  osane (orc env) -> hook_ok env -> Forall2 lrel a1 a2 ->
   sprint fuel env a1 = ROk o1 -> sprint fuel env a2 = ROk o2 ->
   forall ops1 ops2, o_log o1 = ops1 ++ [OTake] -> o_log o2 = ops2 ++ [OTake] ->
   rawok ops1 = true -> ptail_ok_from init ops1 = true -> ptail_ok_from init ops2 = true ->
@@ -75,7 +75,7 @@ Print Assumptions C02_sprint_leaf_noninterference.
    SafeFormat method runs a SCRIPT against the printer - the same sequence of SafeWriter / io.Writer
    calls with related payloads, nested Print / Printf on related operands [actrel]. *)
 Theorem C02_sprintf_tree_noninterference : forall fuel env f a1 a2 o1 o2,
-  osane (orc env) -> no_star f = true -> Forall2 (arel (hooked env)) a1 a2 ->
+  osane (orc env) -> hook_ok env -> no_star f = true -> Forall2 arel a1 a2 ->
   sprintf fuel env f a1 = ROk o1 -> sprintf fuel env f a2 = ROk o2 ->
   forall ops1 ops2, o_log o1 = ops1 ++ [OTake] -> o_log o2 = ops2 ++ [OTake] ->
   rawok ops1 = true -> ptail_ok_from init ops1 = true -> ptail_ok_from init ops2 = true ->
@@ -84,7 +84,7 @@ Proof. exact sprintf_tree_noninterference. Qed.
 Print Assumptions C02_sprintf_tree_noninterference.
 
 Theorem C02_sprint_tree_noninterference : forall fuel env a1 a2 o1 o2,
-  osane (orc env) -> Forall2 (arel (hooked env)) a1 a2 ->
+  osane (orc env) -> hook_ok env -> Forall2 arel a1 a2 ->
   sprint fuel env a1 = ROk o1 -> sprint fuel env a2 = ROk o2 ->
   forall ops1 ops2, o_log o1 = ops1 ++ [OTake] -> o_log o2 = ops2 ++ [OTake] ->
   rawok ops1 = true -> ptail_ok_from init ops1 = true -> ptail_ok_from init ops2 = true ->
@@ -164,7 +164,7 @@ Definition c02_tree (name : bytes) (id : Z) (tag : bytes) (x : Z) : list value :
           APrintf [32;105;100;61;37;100]%N [VInt c02_ti id]; APrint [VStr c02_ts tag]]].
 Definition c02_fmt2 : bytes := [37;43;118;124;37;118;124;37;118;124;37;118;124;37;118;124;37;115;124;37;118]%N.
 
-Lemma c02_trees_related : Forall2 (arel (hooked (mkEnv c02_orc None))) (c02_tree [97;98]%N 42 [120;10;121]%N 5) (c02_tree [99;100]%N 4711 [122;10;122]%N 77).
+Lemma c02_trees_related : Forall2 arel (c02_tree [97;98]%N 42 [120;10;121]%N 5) (c02_tree [99;100]%N 4711 [122;10;122]%N 77).
 Proof.
   unfold c02_tree. constructor; [apply ar_v|constructor; [apply ar_v|constructor; [apply ar_v|constructor; [apply ar_v|constructor; [apply ar_unsafe|constructor; [apply ar_safe|constructor; [apply ar_v|constructor]]]]]]].
   - apply vr_struct; [reflexivity | reflexivity|].
@@ -203,6 +203,29 @@ Example C02_tree_nonvacuous :
   | _, _ => False
   end.
 Proof. vm_compute. repeat split; congruence. Qed.
+
+(* with an error hook installed (RegisterRedactErrorFn): error values are rendered by the hook's
+   script; the hypothesis hook_ok holds, the operands are related, the redactions agree *)
+Definition c02_hook : list action := [ASafeString [101;114;114;61]%N; AUnsafeString [63;63]%N; APrintf [32;37;100]%N [VInt c02_ti 7]].
+Definition c02_err (msg : bytes) : value :=
+  VUser (c02_t [42;109;97;105;110;46;69]%N) (mkI false false true false false false) false
+        (VPtr (c02_t [42;109;97;105;110;46;69]%N) 53248 None) [ARet msg].
+Lemma c02_hook_ok : hook_ok (mkEnv c02_orc (Some c02_hook)).
+Proof.
+  unfold hook_ok, c02_hook. cbn [hook].
+  constructor; [apply ac_same; exact Logic.I|]. constructor; [apply ac_us; now left|].
+  constructor; [apply ac_printf; [reflexivity|]; constructor; [|constructor]; apply ar_v, vr_leaf, lrel_refl; reflexivity | constructor].
+Qed.
+Lemma c02_errs_related : Forall2 arel [c02_err [97;98]%N] [c02_err [120;121]%N].
+Proof.
+  constructor; [|constructor]. apply ar_v. apply vr_user; try reflexivity; [right; c02_srel | apply vr_ptr_nil; reflexivity].
+Qed.
+Example C02_hook_nonvacuous :
+  match sprintf 20 (mkEnv c02_orc (Some c02_hook)) [37;118]%N [c02_err [97;98]%N], sprintf 20 (mkEnv c02_orc (Some c02_hook)) [37;118]%N [c02_err [120;121]%N] with
+  | ROk o1, ROk o2 => redact_b (o_bytes o1) = redact_b (o_bytes o2) /\ o_bytes o1 = [101;114;114;61;226;128;185;63;63;226;128;186;32;226;128;185;55;226;128;186]%N
+  | _, _ => False
+  end.
+Proof. vm_compute. split; reflexivity. Qed.
 
 (* Redact() depends on the shape only: the text outside envelopes and, per envelope, whether it is
    closed and whether it is empty *)
